@@ -798,13 +798,21 @@ func opSet(r *Run, o *simObj, what string) {
 }
 
 // opDelete runs DeleteElems on a drawn container with a drawn member subset.
-func opDelete(r *Run, o *simObj, what string) {
+func opDelete(r *Run, o *simObj, what string) { opDeleteAt(r, o, what, nil, -1) }
+
+// opDeleteAt is opDelete with the container and the member subset given (forcedMask >= 0).
+func opDeleteAt(r *Run, o *simObj, what string, forcedPos Pos, forcedMask int) {
 	c := r.C
 	conts := allContainers(o.model)
 	if len(conts) == 0 {
 		return
 	}
-	pos := conts[c.Intn("delcont", len(conts))]
+	var pos Pos
+	if forcedPos != nil {
+		pos = forcedPos
+	} else {
+		pos = conts[c.Intn("delcont", len(conts))]
+	}
 	m := getAt(o.model, pos)
 	n := len(m.Arr)
 	if m.K == KObject {
@@ -825,7 +833,11 @@ func opDelete(r *Run, o *simObj, what string) {
 	// subset: exhaustive-style mask for small containers, drawn otherwise
 	del := make([]bool, n)
 	if n > 0 {
-		if n <= 6 {
+		if forcedMask >= 0 {
+			for i := range del {
+				del[i] = forcedMask>>i&1 == 1
+			}
+		} else if n <= 6 {
 			mask := c.Intn("delmask", 1<<n)
 			for i := range del {
 				del[i] = mask>>i&1 == 1
@@ -1041,6 +1053,44 @@ func RunHistEdit(r *Run, profile string) {
 		return
 	}
 	sers := newSerializers(c, 1)
+	if profile == "delete" && c.Intn("allsubsets", 6) == 0 {
+		// every subset of the members of one small container, each on a fresh parse of the same document
+		var small []Pos
+		for _, p := range allContainers(o.model) {
+			m := getAt(o.model, p)
+			n := len(m.Arr) + len(m.Keys)
+			if n >= 1 && n <= 5 {
+				small = append(small, p)
+			}
+		}
+		if len(small) > 0 {
+			pos := small[c.Intn("subsetcont", len(small))]
+			m := getAt(o.model, pos)
+			n := len(m.Arr) + len(m.Keys)
+			for mask := 0; mask < 1<<n && !r.failed(); mask++ {
+				o2 := parseNew(r, doc, cfg, "parse")
+				if o2 == nil {
+					break
+				}
+				what := fmt.Sprintf("subset %0*b of container %v", n, mask, pos)
+				opDeleteAt(r, o2, what, pos, mask)
+				if r.failed() {
+					break
+				}
+				readBack(r, o2, bAll, "after deleting "+what, sers)
+				r.Res.Evals++
+			}
+			r.Res.Exhaustive = true
+			r.Res.NonTrivial = true
+			r.Res.Sample["ops"] = fmt.Sprintf("all %d subsets of container %v", 1<<n, pos)
+			r.stat("containers_with_every_subset_deleted", 1)
+			f := newFP()
+			f.bytes(doc)
+			r.fp.u64(f.h)
+			r.fp.u64(uint64(len(pos)))
+			return
+		}
+	}
 	battery := bAll
 	switch profile {
 	case "marshal":
@@ -1072,7 +1122,8 @@ func RunHistEdit(r *Run, profile string) {
 			break
 		}
 		readBack(r, o, battery, fmt.Sprintf("after %s (%s)", what, ops[len(ops)-1]), sers)
-		if profile == "marshal" && !r.failed() {
+		if (profile == "marshal" || profile == "delete") && !r.failed() {
+			// C14 lists MarshalJSON of Iter, Array and Elements among the APIs that must agree after deletions
 			checkMarshalInner(r, o, fmt.Sprintf("after %s", what))
 		}
 	}
